@@ -310,7 +310,7 @@ PROP_FAMILIES = {
 }
 
 TLC_NAMES = {
-    "C01": (["Inv_C01"], []), "C02": ([], ["P_C02"]), "C03": (["Inv_C03"], ["P_C03"]), "C04": ([], ["P_C04"]),
+    "C01": (["Inv_C01", "LedgerInv"], ["LedgerRefined"]), "C02": ([], ["P_C02"]), "C03": (["Inv_C03", "LedgerInv"], ["P_C03", "LedgerRefined"]), "C04": ([], ["P_C04"]),
     "C05": ([], ["P_C05"]), "C06": ([], ["P_C06"]), "C07": ([], ["P_C07"]), "C08": (["Inv_C08"], ["P_C08"]),
     "C09": ([], ["P_C09"]), "C10": (["Inv_C10"], ["P_C10"]), "C11": (["Inv_C11"], ["P_C11"]),
     "C12": (["Inv_C12"], ["P_C12"]), "C13": (["Inv_C13"], ["P_C13"]), "C14": (["Inv_C14"], []),
@@ -372,9 +372,40 @@ def simple_tlc(module, cfg, workdir, tag, files=()):
     return r.stdout
 
 
+def ledger_inductive(workdir):
+    """Apalache: the conservation laws of Ledger.tla (which Service.tla refines - PROPERTY LedgerRefined of the
+    MC_* runs) are an inductive invariant, for unbounded amounts: Init => IndInv and IndInv /\\ Next => IndInv'"""
+    import shutil, subprocess, time
+    spec = os.path.join(os.path.dirname(os.path.dirname(os.path.abspath(__file__))), "spec")
+    d = os.path.join(workdir, "apalache")
+    os.makedirs(d, exist_ok=True)
+    shutil.copy(os.path.join(spec, "Ledger.tla"), d)
+    res = []
+    for name, args in (("init", ["--init=LInit", "--length=0"]), ("step", ["--init=IndInit", "--length=1"])):
+        t0 = time.time()
+        try:
+            r = subprocess.run(["apalache-mc", "check", "--cinit=ConstInit", "--next=LNext", "--inv=IndInv",
+                                "--out-dir=" + os.path.join(d, "out"), "--run-dir=" + os.path.join(d, "run-" + name)] + args
+                               + ["Ledger.tla"], cwd=d, stdout=subprocess.PIPE, stderr=subprocess.STDOUT, text=True, timeout=900)
+            out = r.stdout
+        except (subprocess.TimeoutExpired, FileNotFoundError) as e:
+            raise RuntimeError("apalache did not finish on Ledger.tla (%s): %s" % (name, e))
+        if "The outcome is: NoError" not in out:
+            raise RuntimeError("Ledger.tla: the conservation laws are not inductive (%s) - a defect of the specification:\n%s"
+                               % (name, out[-3000:]))
+        res.append({"obligation": name, "outcome": "NoError", "wall_s": round(time.time() - t0, 1)})
+    shutil.rmtree(d, ignore_errors=True)
+    return res
+
+
 def extra_checks(prop, tier, seed, workdir, drive, build=None):
     import re, shutil
     verif = os.path.dirname(os.path.dirname(os.path.abspath(__file__)))
+    if prop in ("C01", "C03"):
+        return {"ledger_inductive_invariant": ledger_inductive(workdir),
+                "rule": "Ledger.tla (escrow backing, custody of deposits, no coin created) is refined by Service.tla "
+                        "(TLC, PROPERTY LedgerRefined on the bounded configurations) and its laws are an inductive invariant "
+                        "(Apalache, unbounded amounts, 3 accounts / 3 requests / 2 bindings)."}
     if prop == "C18":
         kf = os.path.join(workdir, "keys.ndjson")
         st = drive(["keys", "-seed", str(seed), "-out", kf])
